@@ -124,6 +124,20 @@ def from_byte(cx):
         if 'BitAnd' in txt and 'fp_sqrt' in txt:
             s = (b, pr)
     cx.add('G-PARITY', 'from_byte', s is not None, 'the compressed root is selected by comparing the parity of the candidate y with the tag bit', G.where(fn, s[0]) if s else fn.loc())
+    if s is not None:
+        # the parity is that of the canonical residue: the root is in Montgomery form, whose low bit says nothing about y
+        def raw_root(e, under_from_mont=False, depth=0):
+            """an fp_sqrt(..) value reached from e without passing through fp_from_mont"""
+            e = strip(e)
+            if depth > 40:
+                return False
+            if e.k == 'call' and last(e.name) == 'fp_from_mont':
+                return False
+            if e.k == 'call' and last(e.name) == 'fp_sqrt':
+                return True
+            return any(raw_root(a, under_from_mont, depth + 1) for a in e.args)
+        bad = any(raw_root(a) for a in s[1].args)
+        cx.add('G-PARITY', 'from_byte/canonical', not bad, 'the parity bit is taken from fp_from_mont(root), not from the Montgomery representation of the root', G.where(fn, s[0]))
 
 
 def run(cx):
